@@ -4,6 +4,7 @@ import (
 	"fmt"
 	"math/rand/v2"
 	"os"
+	"regexp"
 	"strconv"
 	"strings"
 	"time"
@@ -150,6 +151,18 @@ var c20Units = map[string]string{
 	"space": "{\"a\":1,\"b\":[2]} ", "tab-indented": "{\n\t\"a\": 1,\n\t\"b\": [\n\t\t2\n\t]\n}\n", "mixed": "{\"a\":1,\r\"b\":[2]}\n\n", "long-line": "{\"a\":1,\"b\":[2],\"pad\":\"" + strings.Repeat("x", 3000) + "\"}\n",
 }
 
+var c20GCLine = regexp.MustCompile(`(?m)^gc \d+ @.*? \d+->\d+->(\d+) MB`)
+
+func c20NoGCTrace(stderr string) string {
+	var keep []string
+	for _, l := range strings.Split(stderr, "\n") {
+		if !strings.HasPrefix(l, "gc ") {
+			keep = append(keep, l)
+		}
+	}
+	return strings.Join(keep, "\n")
+}
+
 var kC20Cmd = run.NewKind("c20.command-rss", func(c *run.Ctx, t c20CmdCase) *run.Fail {
 	unit, ok := c20Units[t.Style]
 	if !ok {
@@ -159,36 +172,54 @@ var kC20Cmd = run.NewKind("c20.command-rss", func(c *run.Ctx, t c20CmdCase) *run
 		c.Inconclusive("no-/usr/bin/time")
 		return nil
 	}
-	var rss [2]int64
+	// The verdict is on the collector's own account of the reachable heap (GODEBUG=gctrace=1: "A->B->C MB", C is what
+	// the cycle found reachable), not on the resident set: under CPU starvation the heap of a Go process overshoots its
+	// goal by a load-dependent amount, the reachable part does not. The kernel's peak RSS is recorded as a gauge only.
+	var rss, live [2]int64
 	var outs [2]string
 	sizes := []int{4 << 20, 48 << 20}
 	for k, size := range sizes {
 		n := size / len(unit)
-		res := run.CLI(run.CLIOpt{Wrap: []string{"/usr/bin/time", "-f", "VERIF-MAXRSS %M"}, Args: t.Args, Stdin: []byte(strings.Repeat(unit, n)), Timeout: 300 * time.Second})
+		env := append(append([]string{}, run.DefaultEnv()...), "GODEBUG=gctrace=1")
+		res := run.CLI(run.CLIOpt{Wrap: []string{"/usr/bin/time", "-f", "VERIF-MAXRSS %M"}, Args: t.Args, Stdin: []byte(strings.Repeat(unit, n)), Timeout: 300 * time.Second, Env: env})
 		if res.TimedOut || res.StartErr != nil {
 			c.Inconclusive("cli-timeout")
 			return nil
 		}
-		i := strings.LastIndex(string(res.Stderr), "VERIF-MAXRSS ")
+		stderr := string(res.Stderr)
+		i := strings.LastIndex(stderr, "VERIF-MAXRSS ")
 		if i < 0 || res.Code != 0 {
-			return run.Failf("gojq %q on a %d MiB %s stream: exit %d, stderr %s", t.Args, size>>20, t.Style, res.Code, run.Clip(string(res.Stderr)))
+			return run.Failf("gojq %q on a %d MiB %s stream: exit %d, stderr %s", t.Args, size>>20, t.Style, res.Code, run.Clip(c20NoGCTrace(stderr)))
 		}
-		kib, err := strconv.ParseInt(strings.TrimSpace(string(res.Stderr)[i+len("VERIF-MAXRSS "):]), 10, 64)
+		kib, err := strconv.ParseInt(strings.TrimSpace(stderr[i+len("VERIF-MAXRSS "):]), 10, 64)
 		if err != nil {
 			c.Inconclusive("unreadable-rss")
 			return nil
 		}
 		rss[k] = kib
+		cycles := 0
+		for _, m := range c20GCLine.FindAllStringSubmatch(stderr, -1) {
+			if v, err := strconv.ParseInt(m[1], 10, 64); err == nil {
+				live[k] = max(live[k], v)
+				cycles++
+			}
+		}
+		if cycles == 0 {
+			c.Inconclusive("no-gc-trace")
+			return nil
+		}
+		c.Count("gc_cycles_observed", int64(cycles))
 		outs[k] = strings.TrimSpace(string(res.Stdout))
 		if want := strconv.Itoa(n); outs[k] != want {
 			return run.Failf("gojq %q on a stream of %d values printed %q", t.Args, n, run.Clip(outs[k]))
 		}
 		c.Count("stream_values_consumed", int64(n))
 	}
-	c.Logf("peak RSS %d KiB for 4 MiB, %d KiB for 48 MiB", rss[0], rss[1])
+	c.Logf("reachable heap at most %d MB for 4 MiB, %d MB for 48 MiB; peak RSS %d / %d KiB", live[0], live[1], rss[0], rss[1])
+	c.Gauge("max_reachable_heap_mb_48MiB", live[1])
 	c.Gauge("max_peak_rss_kib_48MiB", rss[1])
-	if rss[1] > rss[0]+24*1024 {
-		return run.Failf("gojq %q reading a %s stream from a pipe: peak resident set %d KiB for 4 MiB of input, %d KiB for 48 MiB (grows with the amount consumed)", t.Args, t.Style, rss[0], rss[1])
+	if live[1] > live[0]+16 {
+		return run.Failf("gojq %q reading a %s stream from a pipe: the collector finds at most %d MB reachable for 4 MiB of input, %d MB for 48 MiB (what is kept grows with the amount consumed; peak RSS %d / %d KiB)", t.Args, t.Style, live[0], live[1], rss[0], rss[1])
 	}
 	c.Nontrivial("cmd|" + t.Style + "|" + strings.Join(t.Args, " "))
 	return nil
@@ -290,8 +321,8 @@ func c20TR(r *rand.Rand, name string, emit bool, d int) string {
 func init() {
 	run.Register(&run.Prop{
 		ID: "C20", Level: "exploration", MinNontrivial: 100,
-		Rule:        "a case is (iteration form, mode, n). gen: one live iterator is advanced by the real VM; the interpreter footprint (lengths of the data stack, path stack, scope stack and register file backing arrays — high-water marks — plus fork-stack capacity, read through the verif hook) is read after n and after 8n outputs and must not grow by more than 16 slots; loop: the form is run to its first result with $n = n and $n = 8n and the footprints compared the same way. Forms: every iteration builtin named by the property (range, while, until, repeat, recurse, limit, first, last, reduce, foreach, inputs over an endless iterator), each nested one level inside others, and parameterless self-recursive definitions whose recursive call is in syntactic tail position (branch of if/elif/else, right of a pipe whose left side is single-output, right operand of //, last operand of a comma, body of `as` incl. destructuring, after local defs, inner tail-recursive definitions). A prefix of the outputs / the result is also compared with the reference interpreter so that constant space is not obtained by dropping values. Non-trivial = every distinct (form, mode, n).",
-		Assumptions: []string{"interpreter state = the five structures exposed by VerifFootprint; Go heap retained elsewhere is not measured", "tail position is syntactic and fork-free; calls under try/label/left of // and functions with parameters are outside the statement"},
+		Rule:        "a case is (iteration form, mode, n). gen: one live iterator is advanced by the real VM; the interpreter footprint (lengths of the data stack, path stack, scope stack and register file backing arrays — high-water marks — plus fork-stack capacity, read through the verif hook) is read after n and after 8n outputs and must not grow by more than 16 slots; loop: the form is run to its first result with $n = n and $n = 8n and the footprints compared the same way. Forms: every iteration builtin named by the property (range, while, until, repeat, recurse, limit, first, last, reduce, foreach, inputs over an endless iterator), each nested one level inside others, and parameterless self-recursive definitions whose recursive call is in syntactic tail position (branch of if/elif/else, right of a pipe whose left side is single-output, right operand of //, last operand of a comma, body of `as` incl. destructuring, after local defs, inner tail-recursive definitions). A prefix of the outputs / the result is also compared with the reference interpreter so that constant space is not obtained by dropping values. command: the real command consumes a 4 MiB and a 48 MiB stream from a pipe (9 line disciplines x consuming programs) with GODEBUG=gctrace=1; the largest reachable heap any collection cycle reports must not grow by more than 16 MB (peak RSS is recorded, not judged: it depends on the load of the machine). Non-trivial = every distinct (form, mode, n).",
+		Assumptions: []string{"interpreter state = the five structures exposed by VerifFootprint; Go heap retained elsewhere is measured only for the command, through the collector's own trace", "tail position is syntactic and fork-free; calls under try/label/left of // and functions with parameters are outside the statement"},
 		Body: func(c *run.Ctx) {
 			ns := []int{1000}
 			if !c.Quick() {
